@@ -210,6 +210,16 @@ func NewBuilder(config BuilderConfig) *Builder {
 	return builder
 }
 
+// shellQuote turns s into a single word of the sh -c command line the compiler is started with.
+func shellQuote(s string) string {
+	return "'" + strings.ReplaceAll(s, "'", "'\\''") + "'"
+}
+
+// cStringLiteral escapes s for use between the quotes of a C string literal.
+func cStringLiteral(s string) string {
+	return strings.NewReplacer("\\", "\\\\", "\"", "\\\"").Replace(s)
+}
+
 func (b *Builder) SetSilent(silent bool) {
 	b.silent = silent
 }
@@ -616,13 +626,13 @@ func (b *Builder) PatchConfig() ([]byte, error) {
 	if b.FileType == FILETYPE_WINDOWS_SERVICE_EXE {
 		if val, ok := b.config.Config["Service Name"].(string); ok {
 			if len(val) > 0 {
-				b.compilerOptions.Defines = append(b.compilerOptions.Defines, "SERVICE_NAME=\\\""+val+"\\\"")
+				b.compilerOptions.Defines = append(b.compilerOptions.Defines, shellQuote("SERVICE_NAME=\""+cStringLiteral(val)+"\""))
 				if !b.silent {
 					b.SendConsoleMessage("Info", "set service name to "+val)
 				}
 			} else {
 				val = common.RandomString(6)
-				b.compilerOptions.Defines = append(b.compilerOptions.Defines, "SERVICE_NAME=\\\""+val+"\\\"")
+				b.compilerOptions.Defines = append(b.compilerOptions.Defines, shellQuote("SERVICE_NAME=\""+cStringLiteral(val)+"\""))
 				if !b.silent {
 					b.SendConsoleMessage("Info", "service name not specified... using random name")
 					b.SendConsoleMessage("Info", "set service name to "+val)
